@@ -23,11 +23,6 @@ open PyYetiVerif.RigidBody
 section disp
 open PyYetiVerif.Coord
 
-theorem pyMax_zero : pyMax (0 : ℝ) 0 = 0 := by simp [pyMax]
-
-theorem pyMax_nonneg {a b : ℝ} (ha : 0 ≤ a) (hb : 0 ≤ b) : 0 ≤ pyMax a b := by
-  unfold pyMax; split_ifs <;> assumption
-
 /-- ★ `rbdispchk` recovers the grid coordinates from rigid-body displacement rows.  If the three
 translation rows of a node are `[F, F·(-(d×))]` - the rigid-body rows of a node at offset `d` from
 the reference point, expressed in ANY non-singular local basis `F` (rectangular, cylindrical or
@@ -68,6 +63,41 @@ theorem rbdispchk_recovers_grid (co : CoordInfo ℝ) (p ref : Coord.V3 ℝ) (hT 
   have := rbdispchk_recovers_coords (localFrameT co p) hdet (p.sub ref)
   exact ⟨this.1, this.2.1⟩
 
+/-- ★ the coordinates `_cbcoordchk` prints.  The stiffness-based modes are normalised to the identity on the reference
+grid, `rbs_g = RB_g · RB_ref⁻¹`; with `RB_g = [Fg, Fg·(-(d×))]` (grid `g` at offset `d = p_g - p_ref`, local basis `Fg`) and
+`RB_ref = diag(Fr, Fr)` (a rotation `Fr`: basic → local axes of the reference grid) the translation rows handed to
+`rbdispchk` are `[Fg·Frᵀ, Fg·(-(d×))·Frᵀ]`, and the routine returns `Fr·d` - the location relative to the reference grid
+IN THE LOCAL COORDINATE SYSTEM OF THE REFERENCE GRID, as the report says - with zero pattern error. -/
+theorem coordchk_coords_local (Fg Fr : M3 ℝ) (hg : Fg.det ≠ 0) (hr : IsFrame Fr.transpose) (d : Coord.V3 ℝ) :
+    rbdispNode (Fg.mul Fr.transpose) ((Fg.mul (skewNeg d)).mul Fr.transpose)
+      = ⟨Fr.mulVec d, Coord.V3.zero, Coord.V3.zero⟩ := by
+  have h1 : Fr.transpose.mul Fr = M3.one := by
+    have := hr.mul_transpose; rwa [transpose_transpose] at this
+  have hA : (Fg.mul Fr.transpose).det ≠ 0 := by
+    rw [det_mul, hr.2, mul_one]; exact hg
+  -- `Fg · X = (Fg Frᵀ) · (Fr X)`
+  have hsplit : (Fg.mul (skewNeg d)).mul Fr.transpose
+      = (Fg.mul Fr.transpose).mul (Fr.mul ((skewNeg d).mul Fr.transpose)) := by
+    rw [mul_assoc3 Fg Fr.transpose, ← mul_assoc3 Fr.transpose Fr, h1, one_mul3, mul_assoc3]
+  have hR : (Fg.mul Fr.transpose).inv.mul ((Fg.mul (skewNeg d)).mul Fr.transpose)
+      = Fr.mul ((skewNeg d).mul Fr.transpose) := by
+    rw [hsplit, ← mul_assoc3, inv_mul_self _ hA, one_mul3]
+  obtain ⟨c0, c1, c2⟩ := frame_rows_cross Fr hr
+  have e0 := Coord.V3.ext_iff.1 c0
+  have e1 := Coord.V3.ext_iff.1 c1
+  have e2 := Coord.V3.ext_iff.1 c2
+  simp only [Coord.V3.cross] at e0 e1 e2
+  simp only [rbdispNode, hR]
+  simp only [skewNeg, M3.mul, M3.transpose, M3.col0, M3.col1, M3.col2, M3.vecMul, M3.mulVec, Coord.V3.dot,
+    Coord.V3.zero]
+  congr 1
+  · ext
+    · linear_combination d.x * e0.1 + d.y * e0.2.1 + d.z * e0.2.2
+    · linear_combination d.x * e1.1 + d.y * e1.2.1 + d.z * e1.2.2
+    · linear_combination d.x * e2.1 + d.y * e2.2.1 + d.z * e2.2.2
+  · ext <;> ring
+  · ext <;> ring
+
 /-- non-vacuity and the docstring example of `rbdispchk`: node at (1, 2, 3), identity basis -/
 example : (rbdispNode (M3.one : M3 ℝ) (skewNeg ⟨1, 2, 3⟩)).coords = ⟨1, 2, 3⟩ := by
   have := (rbdispchk_recovers_coords M3.one (by simp [M3.det, M3.one, Coord.V3.dot, Coord.V3.cross]) ⟨1, 2, 3⟩).1
@@ -87,32 +117,6 @@ end disp
 
 section net
 variable {K : Type} [CommRing K]
-
-theorem rbgeom_row (p : Nat → V3 K) (r : V3 K) (g a j : Nat) (ha : a < 6) :
-    rbgeom p r (6 * g + a) j = rbBlock (p g) r a j := by
-  unfold rbgeom
-  have h1 : (6 * g + a) / 6 = g := by omega
-  have h2 : (6 * g + a) % 6 = a := by omega
-  rw [h1, h2]
-
-/-- a sum over `6 ng` rows, grid by grid -/
-theorem sumN_six_blocks (ng : Nat) (f : Nat → K) :
-    sumN (6 * ng) f = sumN ng fun g => f (6 * g) + f (6 * g + 1) + f (6 * g + 2) + f (6 * g + 3)
-      + f (6 * g + 4) + f (6 * g + 5) := by
-  induction ng with
-  | zero => simp [sumN]
-  | succ n ih => rw [sumN_six_succ, ih]; simp [sumN]
-
-/-- one grid: the six rows of `rbgeom` applied (transposed) to the grid's force/moment give the
-force and the moment moved to the reference point -/
-theorem rbBlock_resultant (p r : V3 K) (f0 f1 f2 f3 f4 f5 : K) (j : Nat) (hj : j < 6) :
-    rbBlock p r 0 j * f0 + rbBlock p r 1 j * f1 + rbBlock p r 2 j * f2 + rbBlock p r 3 j * f3
-        + rbBlock p r 4 j * f4 + rbBlock p r 5 j * f5
-      = pick6 j f0 f1 f2
-          (f3 + ((p.y - r.y) * f2 - (p.z - r.z) * f1))
-          (f4 + ((p.z - r.z) * f0 - (p.x - r.x) * f2))
-          (f5 + ((p.x - r.x) * f1 - (p.y - r.y) * f0)) := by
-  interval_cases j <;> simp [rbBlock, pick6] <;> ring
 
 /-- ★ the net-force rows `rb.T @ F` of `mk_net_drms` ARE the resultant: for the geometry-based
 rigid-body modes `rb = rbgeom(grids, ref)` of `ng` boundary grids and any boundary force vector
